@@ -107,6 +107,7 @@ acct_tuple!(TupleARegion; A 0);
 acct_tuple!(TupleABRegion; A 0, B 1);
 acct_tuple!(TupleABCRegion; A 0, B 1, C 2);
 acct_tuple!(TupleABCDRegion; A 0, B 1, C 2, D 3);
+acct_tuple!(TupleABCDEFGHRegion; A 0, B 1, C 2, D 3, E 4, F 5, G 6, H 7);
 
 impl<R: Acct, O: IndexContainer<R::Index> + IcCost> Acct for SliceRegion<R, O> {
     fn lb(vals: &[&Vec<R::Owned>]) -> usize {
